@@ -409,6 +409,8 @@ def _elem_term(it, site, n, symbolic_index=False):
         return ("tuple", (idx, _elem_term(it[2][0], site, n)))
     if it[0] == "call" and it[1] == ("ext", "zip") and it[2] and not it[3]:
         return ("tuple", tuple(_elem_term(x, site, n, symbolic_index) for x in it[2]))
+    if it[0] == "call" and it[1] == ("ext", "itertools.repeat") and len(it[2]) == 1 and not it[3]:
+        return it[2][0]  # every element of repeat(X) is X
     if it[0] == "comp" and it[1] in ("list", "gen") and len(it[3]) == 1 and not it[3][0][2]:
         # the n-th element of [ELT for T in X] (no filter) is ELT with T bound to the n-th element of X
         gel, git, _ = it[3][0]
@@ -1024,6 +1026,11 @@ class Engine:
                     if isinstance(tg, ast.Subscript):
                         b = ev(tg.value, s, ch)
                         i = ev(tg.slice, s, ch)
+                        if isinstance(tg.value, ast.Name) and b[0] == "dict" and s.env.get(tg.value.id) == b and is_const(i) \
+                                and all(is_const(k) for k, _ in b[1]) and any(k == i for k, _ in b[1]):
+                            # tracked local dict display:  d = {...}; del d["k"]
+                            s.env[tg.value.id] = ("dict", tuple((k, v) for k, v in b[1] if k != i))
+                            continue
                         e = self._event("store", tg, fi, depth, s)
                         e.target = ("item", b, i)
                         e.value = ("deleted",)
@@ -1857,6 +1864,9 @@ class Engine:
                     return v
                 if v[0] == "cls" and isinstance(node, (ast.Attribute, ast.Name)):
                     return v  # a private alias of a class
+                if v[0] == "call" and v[1][0] == "ext" and v[1][1] in ("operator.attrgetter", "operator.itemgetter") \
+                        and v[2] and all(is_const(a) for a in v[2]) and not v[3]:
+                    return v  # a precomputed getter
             return ("attr", ("mod", g[1]), g[2])
         if g[0] == "classattr":
             em = enum_members(self.prog, g[1])
@@ -2095,7 +2105,8 @@ class Engine:
                 s.env.update(saved)
                 return ({"list": "list", "set": "set", "gen": "tuple"}[kind], tuple(out))
         if kind == "list" and len(node.generators) == 1 and not node.generators[0].is_async \
-                and (_filter_calls_element_method(node.generators[0]) or self._calls_branching_helper(node.elt, fi)):
+                and (_filter_calls_element_method(node.generators[0]) or self._calls_branching_helper(node.elt, fi)
+                     or self._filter_applies_local_callable(node.generators[0], s)):
             return self._comp_as_loop(node, s, fi, depth, ch, saved)
         s.env["$incomp"] = True
         for gi, g in enumerate(node.generators):
@@ -2113,6 +2124,21 @@ class Engine:
         s.env.clear()
         s.env.update(saved)
         return ("comp", kind, elt, tuple(gens), self.site(node, fi, s))
+
+    def _filter_applies_local_callable(self, g: ast.comprehension, s: _State) -> bool:
+        """the filter applies a callable object held in a local (operator.methodcaller / functools.partial / a bound method /
+        a closure) to the element: `keep = operator.methodcaller("m", a); [x for x in xs if keep(x)]` asks every element
+        like `[x for x in xs if x.m(a)]` does"""
+        bound = {n.id for n in ast.walk(g.target) if isinstance(n, ast.Name)}
+        for c in g.ifs:
+            for n in ast.walk(c):
+                if isinstance(n, ast.Call) and isinstance(n.func, ast.Name) and n.func.id in s.env \
+                        and any(isinstance(a, ast.Name) and a.id in bound for a in n.args):
+                    v = s.env[n.func.id]
+                    if v[0] in ("closure", "bound") or (v[0] == "call" and v[1][0] == "ext" and
+                                                         v[1][1] in ("operator.methodcaller", "functools.partial")):
+                        return True
+        return False
 
     def _calls_branching_helper(self, expr, fi: FuncInfo) -> bool:
         """does `expr` call a function the rules were not written against (an extracted helper)?  What it does and decides
@@ -2176,12 +2202,40 @@ class Engine:
 
     # calls ----------------------------------------------------------------------
     def _eval_call(self, node: ast.Call, s: _State, fi: FuncInfo, depth, ch):
+        if isinstance(node.func, ast.Name) and node.func.id == "next" and 1 <= len(node.args) <= 2 and not node.keywords \
+                and isinstance(node.args[0], ast.GeneratorExp) and len(node.args[0].generators) == 1 \
+                and not node.args[0].generators[0].is_async and "next" not in s.env and not s.env.get("$incomp"):
+            # next((ELT for T in TABLE if COND), default): first-match search.  Over a display of known elements it is the
+            # if/elif chain over them (decisions recorded per element); otherwise evaluated as any other call
+            g = node.args[0].generators[0]
+            it = self._eval(g.iter, s, fi, depth, ch)
+            elems = self._iter_elems(it)
+            if elems is not None and len(elems) <= 8:
+                saved = dict(s.env)
+                try:
+                    for el in elems:
+                        self._assign(g.target, el, s, fi, depth, ch)
+                        if all(self._cond(c, s, fi, depth, ch, c) for c in g.ifs):
+                            return self._eval(node.args[0].elt, s, fi, depth, ch)
+                finally:
+                    keep = {k: v for k, v in s.env.items() if k.startswith("$")}
+                    s.env.clear()
+                    s.env.update(saved)
+                    s.env.update({k: v for k, v in keep.items() if k in saved})
+                if len(node.args) == 2:
+                    return self._eval(node.args[1], s, fi, depth, ch)
         f = self._eval(node.func, s, fi, depth, ch)
         args = []
         for a in node.args:
             x = self._eval(a, s, fi, depth, ch)
             if x[0] == "starred" and self.namedtuple_values(x[1]) is not None:
                 x = ("starred", ("tuple", tuple(self.namedtuple_values(x[1]))))
+            if x[0] == "starred" and x[1][0] == "call" and x[1][1][0] == "attr" and x[1][1][2] in ("unpack", "unpack_from"):
+                # *Struct.unpack(..): as many values as the format has fields
+                from . import layout as _layout
+                fm = _layout.struct_fmt(self, x[1][1][1])
+                if fm is not None:
+                    x = ("starred", ("tuple", tuple(("item", x[1], const(i)) for i in range(len(fm.items)))))
             if x[0] == "starred" and x[1][0] in ("tuple", "list") and not any(e[0] == "starred" for e in x[1][1]):
                 args.extend(x[1][1])
             else:
@@ -2227,6 +2281,37 @@ class Engine:
             if hit is not None:
                 return hit
             return args[1] if len(args) == 2 else NONE
+        # operator.attrgetter / itemgetter / methodcaller objects applied to a value
+        if f[0] == "call" and f[1][0] == "ext" and f[1][1] in ("operator.attrgetter", "operator.itemgetter", "operator.methodcaller") \
+                and f[2] and not (f[1][1] != "operator.methodcaller" and f[3]) and len(args) == 1 and not kwargs:
+            obj = args[0]
+            kind = f[1][1].split(".")[1]
+            if kind == "attrgetter" and all(is_const(a) and isinstance(a[1], str) and a[1].isidentifier() for a in f[2]):
+                vals = [self._load_attr(obj, a[1], node, s, fi, depth, ch) for a in f[2]]
+                return vals[0] if len(vals) == 1 else ("tuple", tuple(vals))
+            if kind == "itemgetter" and all(is_const(a) for a in f[2]):
+                def item(a):
+                    if obj[0] in ("tuple", "list") and isinstance(a[1], int) and -len(obj[1]) <= a[1] < len(obj[1]) \
+                            and not any(x[0] == "starred" for x in obj[1]):
+                        return obj[1][a[1]]
+                    return ("item", obj, a)
+                vals = [item(a) for a in f[2]]
+                return vals[0] if len(vals) == 1 else ("tuple", tuple(vals))
+            if kind == "methodcaller" and is_const(f[2][0]) and isinstance(f[2][0][1], str) and f[2][0][1].isidentifier():
+                m = self._load_attr(obj, f[2][0][1], node, s, fi, depth, ch)
+                return self._call_function(m, tuple(f[2][1:]), tuple(f[3]), site, node, s, fi, depth, ch, awaited=awaited)
+        # tracked local dict display:  d = {...}; d.update(k=v, ...) / d.update({...})
+        if f[0] == "attr" and f[2] == "update" and f[1][0] == "dict" and all(is_const(k) for k, _ in f[1][1]) \
+                and isinstance(node, ast.Call) and isinstance(node.func, ast.Attribute) and isinstance(node.func.value, ast.Name) \
+                and s.env.get(node.func.value.id) == f[1] and len(args) <= 1 and all(k != "**" for k, _ in kwargs) \
+                and (not args or (args[0][0] == "dict" and all(is_const(k) for k, _ in args[0][1]))):
+            d = dict(f[1][1])
+            for k, v in (args[0][1] if args else ()):
+                d[k] = v
+            for k, v in kwargs:
+                d[const(k)] = v
+            s.env[node.func.value.id] = ("dict", tuple(d.items()))
+            return NONE
         # NT._make(iterable): the NamedTuple of the iterable's items
         if f[0] == "attr" and f[2] == "_make" and f[1][0] == "cls" and len(args) == 1 and not kwargs \
                 and getattr(self.prog.classes.get(f[1][1]), "is_namedtuple", False):
